@@ -95,6 +95,87 @@ theorem C09_series (s : State) (hid : s.curr.id < U32) (h1 : 1 ≤ s.limitHours)
     obtain ⟨d1, d2, d3, d4, d5⟩ := hd hdays
     exact ⟨d1, d2, d3, d4, by rw [d5, hlen]⟩
 
+/-- Hourly series sum to the totals.  For EVERY state, current hour and
+retention interval below 192 h (8 days; intervals are any number of
+milliseconds from 1 h, `limitHours` is its whole hours): the answer is in
+hours, has one slot per hour of the interval, each of the four series is the
+per-hour value of the units the window consists of (oldest first, the current
+unit last), and adds up exactly to its total. -/
+theorem C09_hourly_sums_to_total (s : State) (hid : s.curr.id < U32) (h1 : 1 ≤ s.limitHours)
+    (hh : s.limitHours < 192) :
+    ∃ r, getData s = .ok r ∧ r.days = false ∧ r.dnsQueries.length = s.limitHours ∧
+      r.dnsQueries = (storedUnits s s.limitHours ++ [s.curr.serialize]).map (·.nTotal) ∧
+      r.dnsQueries.sum = r.numDNSQueries ∧ r.blockedFiltering.sum = r.numBlockedFiltering ∧
+      r.replacedSafebrowsing.sum = r.numReplacedSafebrowsing ∧ r.replacedParental.sum = r.numReplacedParental := by
+  have h2 : s.limitHours < U32 := by simp only [U32]; omega
+  obtain ⟨hl, hlen⟩ := loadUnits_ok s s.limitHours hid h1 h2
+  obtain ⟨r, hr, t1, t2, t3, _, t5, hdays, hhours, _⟩ :=
+    dataFromUnits_spec (storedUnits s s.limitHours ++ [s.curr.serialize]) s.curr.id
+  have h0 : ¬ s.limitHours = 0 := by omega
+  have hd : r.days = false := by
+    rw [hdays, hlen]; simp only [decide_eq_false_iff_not]; omega
+  obtain ⟨s1, s2, s3, s4⟩ := hhours hd
+  refine ⟨r, by simp only [getData, h0, if_false, hl]; exact hr, hd, by rw [s1, List.length_map, hlen], s1,
+    by rw [s1, t1]; rfl, by rw [s2, t2]; rfl, by rw [s3, t3]; rfl, by rw [s4, t5]; rfl⟩
+
+/-- Daily series never exceed the totals — and exactly by how much they fall
+short.  For EVERY state, current hour and interval of 192 h or more: the answer
+is in days with `limitHours / 24` slots; the series are filled from the
+day-aligned tail of the window (its last `countHours` hours: whole days plus
+the hours of the current day so far), position `p` of the tail going to day
+`p / 24`; the head of `skipped` oldest hours (fewer than 48) is in the totals
+but in no day.  So `sum(series) + (what was counted in the skipped head) = total`,
+with equality of series and total iff nothing was counted in those hours. -/
+theorem C09_daily_le_total (s : State) (hid : s.curr.id < U32) (h2 : s.limitHours < U32)
+    (hd : 192 ≤ s.limitHours) :
+    ∃ r, getData s = .ok r ∧ r.days = true ∧ r.dnsQueries.length = s.limitHours / 24 ∧
+      (let units := storedUnits s s.limitHours ++ [s.curr.serialize]
+       let skipped := s.limitHours - countHours s.curr.id (s.limitHours / 24)
+       skipped < 48 ∧
+       r.dnsQueries.sum + sumBy (·.nTotal) (units.take skipped) = r.numDNSQueries ∧
+       r.blockedFiltering.sum + sumBy (·.nResult 2) (units.take skipped) = r.numBlockedFiltering ∧
+       r.replacedSafebrowsing.sum + sumBy (·.nResult 3) (units.take skipped) = r.numReplacedSafebrowsing ∧
+       r.replacedParental.sum + sumBy (·.nResult 5) (units.take skipped) = r.numReplacedParental ∧
+       ∀ j, r.dnsQueries.getD j 0 = slotSum (·.nTotal) (· / 24) (units.drop skipped) 0 j) := by
+  have h1 : 1 ≤ s.limitHours := by omega
+  obtain ⟨hl, hlen⟩ := loadUnits_ok s s.limitHours hid h1 h2
+  obtain ⟨r, hr, t1, t2, t3, _, t5, hdays, _, _⟩ :=
+    dataFromUnits_spec (storedUnits s s.limitHours ++ [s.curr.serialize]) s.curr.id
+  have h0 : ¬ s.limitHours = 0 := by omega
+  have hgt : (storedUnits s s.limitHours ++ [s.curr.serialize]).length / 24 > 7 := by rw [hlen]; omega
+  have hdy : r.days = true := by rw [hdays]; simp only [decide_eq_true_eq]; exact hgt
+  obtain ⟨f1, ⟨d2, f2⟩, ⟨d3, f3⟩, ⟨d4, f4⟩⟩ := dataFromUnits_series _ _ r hr
+  obtain ⟨a1, e1, l1, x1, g1⟩ := fillSeries_days_exact (·.nTotal) _ s.curr.id hgt
+  obtain ⟨a2, e2, _, x2, _⟩ := fillSeries_days_exact (·.nResult 2) _ s.curr.id hgt
+  obtain ⟨a3, e3, _, x3, _⟩ := fillSeries_days_exact (·.nResult 3) _ s.curr.id hgt
+  obtain ⟨a4, e4, _, x4, _⟩ := fillSeries_days_exact (·.nResult 5) _ s.curr.id hgt
+  rw [e1] at f1; rw [e2] at f2; rw [e3] at f3; rw [e4] at f4
+  simp only [Except.ok.injEq, Prod.mk.injEq] at f1 f2 f3 f4
+  obtain ⟨_, rfl⟩ := f1
+  have q2 := f2.2; have q3 := f3.2; have q4 := f4.2
+  rw [hlen] at l1 x1 x2 x3 x4 g1
+  refine ⟨r, by simp only [getData, h0, if_false, hl]; exact hr, hdy, l1, ?_, ?_, ?_, ?_, ?_, g1⟩
+  · simp only [countHours]; split <;> omega
+  · rw [t1]; exact x1
+  · rw [t2, ← q2]; exact x2
+  · rw [t3, ← q3]; exact x3
+  · rw [t5, ← q4]; exact x4
+
+/-- The time unit of the answer depends on the interval only: days from 192 h
+(8 × 24) on, hours below — so 7 days are shown as 168 hourly slots, 30 days as
+30 daily ones. -/
+theorem C09_time_units (s : State) (hid : s.curr.id < U32) (h1 : 1 ≤ s.limitHours) (h2 : s.limitHours < U32) :
+    ∃ r, getData s = .ok r ∧ r.days = decide (192 ≤ s.limitHours) := by
+  obtain ⟨hl, hlen⟩ := loadUnits_ok s s.limitHours hid h1 h2
+  obtain ⟨r, hr, _, _, _, _, _, hdays, _, _⟩ :=
+    dataFromUnits_spec (storedUnits s s.limitHours ++ [s.curr.serialize]) s.curr.id
+  have h0 : ¬ s.limitHours = 0 := by omega
+  refine ⟨r, by simp only [getData, h0, if_false, hl]; exact hr, ?_⟩
+  rw [hdays, hlen]
+  by_cases h : 192 ≤ s.limitHours
+  · simp only [h, decide_true, decide_eq_true_eq]; omega
+  · simp only [h, decide_false, decide_eq_false_iff_not]; omega
+
 /-- A clean restart in the same hour (Close, then New on the same file) brings
 back the current unit with all its counters and changes nothing that GET
 /control/stats reports — for every state of the domain, reachable or not. -/
@@ -242,6 +323,47 @@ theorem C09_outside_domain_restart_wipes :
     ∃ s : State, s.curr.nTotal = 3 ∧
       (restart s s.curr.id (24 * msPerHour) true).map (·.curr.nTotal) = some 0 :=
   ⟨⟨[], ⟨5, 3, fun i => if i = 1 then 3 else 0⟩, 24 * msPerHour, true, 5⟩, rfl, by decide⟩
+
+/-- The lower end of the domain is not an artefact of the proof: 8761 is the
+first hour at which EVERY accepted interval is safe.  One hour earlier, with the
+longest interval (365 d), `New` computes `id - limit - 1 = 2^32 - 1`, deletes
+every bucket and a clean restart in the same hour loses the current counters
+(at 8761 it keeps them: `C09_restart_same_hour`). -/
+theorem C09_lower_horizon_tight :
+    ∃ s : State, s.curr.id = 8760 ∧ s.curr.nTotal = 3 ∧ validIvl s.limit = true ∧
+      (restart s s.curr.id s.limit true).map (·.curr.nTotal) = some 0 :=
+  ⟨⟨[], ⟨8760, 3, fun i => if i = 1 then 3 else 0⟩, 8760 * msPerHour, true, 8760⟩, rfl, rfl, by decide, by decide⟩
+
+/-- Inside the domain every hour the module or the clock is at lies in
+`[8761, 2^32)`, the module is never ahead of the clock, and the current unit is
+the unit of the module's hour.  The upper end is the `uint32` horizon of unit
+ids (hour 2^32 - 1 is in the year 491 936): up to and including it nothing
+changes; the generator cannot produce a later hour, it would wrap to 0, which
+is a clock going backwards (next theorem). -/
+theorem C09_hour_horizon (clock limitMs : Nat) (enabled : Bool) (ops : List Op) (s0 s : State)
+    (hnew : new [] clock limitMs enabled = some s0) (hrun : runOps s0 ops = some s)
+    (hdom : (ghostRun (Ghost.init clock limitMs enabled) ops).dom = true) :
+    let g := ghostRun (Ghost.init clock limitMs enabled) ops
+    minHour ≤ g.now ∧ g.now ≤ g.clock ∧ g.clock < U32 ∧ s.curr.id = g.now ∧ s.clock = g.clock := by
+  have hi := inv_run ops (inv_init hnew (dom_run hdom)) hrun hdom
+  exact ⟨hi.lo, hi.nowClock, hi.chi, hi.cur, hi.clock⟩
+
+/-- What the code does when the clock goes BACK (manual clock change; Unix hours
+have no DST): the flush rotates on `ptr.id != id`, so it starts a fresh unit
+for the earlier hour although a bucket of that hour is already stored; the
+stored bucket is shadowed and, at the next rotation, overwritten.  Here: 3
+queries in hour 500000, rollover to 500001, clock back to 500000, 1 query,
+forward again — the window holds 4 counted queries, 1 is reported.  Such
+histories are outside the domain (`dom = false`).  What survives for EVERY
+history, whatever the clock does, is `C09_one_category` (each counted query is
+in the total once and in exactly one category) and `C09_series`. -/
+theorem C09_counterexample_clock_back :
+    let ops : List Op := [.upd ⟨2, false, false⟩ 3, .tick 500001, .tick 500000, .upd ⟨2, false, false⟩ 1, .tick 500001]
+    let g := ghostRun (Ghost.init 500000 (24 * msPerHour) true) ops
+    g.dom = false ∧ upper g .total = 4 ∧
+    ∃ s0 s, new [] 500000 (24 * msPerHour) true = some s0 ∧ runOps s0 ops = some s ∧
+      (getData s).toOption.map (·.numDNSQueries) = some 1 := by
+  refine ⟨by decide, by decide, _, _, rfl, rfl, by decide⟩
 
 /-! ### Non-vacuity: the hypotheses are satisfiable by non-trivial histories -/
 
